@@ -164,7 +164,7 @@ def run(tier, seed):
                             places = int(re.search(r'\d+', tname).group(0))
                             # an exact decimal tie: the binary value decides in CPython
                             scaled = Fraction(repr(v)) * 10 ** places if isinstance(v, float) else None
-                            if scaled is not None and (scaled * 2).denominator == 1 and scaled.denominator != 1 and abs(float(q) - w) <= 10 ** -places * 1.0000001:
+                            if scaled is not None and (scaled * 2).denominator == 1 and scaled.denominator != 1 and abs(q - Fraction(repr(w))) <= Fraction(1, 10 ** places):
                                 agree = True
                                 ties += 1
                     else:
